@@ -20,6 +20,7 @@ import json
 import multiprocessing
 import os
 import random
+import re
 import subprocess
 import sys
 import time
@@ -210,6 +211,57 @@ def judge_batch(prop, reqs, out_lines, build_name, st, max_viol=25):
                 st.labels["more_violations"] = st.labels.get("more_violations", 0) + 1
 
 
+LOCALITY_OPS = frozenset((
+    "add sub mul div rem cadd csub cmul cdiv crem divr mulr quant cmpall minmax round cround tostr strfrom debug serde "
+    "tof64 tof32 toint neg negref abs floor ceil trunc fract magn preds ratio hash fmt").split())
+_DTOK = re.compile(r"^D(-?\d+):(\d+)$")
+
+
+def add_locality(reqs, rng, p=0.03):
+    """Temporal locality: now and then a request is followed by a close relative (one Decimal operand with the scale
+    changed by one, the coefficient shifted by a multiple of 2^64 or 2^32, negated, or re-expressed with a trailing
+    zero) and then by itself again - or simply repeated. Every line is still judged on its own by the exact oracle;
+    the point is the *sequence*: a memo, cache or lazily initialised table keyed on part of the operands (and any other
+    state carried from one call to the next) returns the relative's answer for the original."""
+    M = O.M
+    out = []
+    for r in reqs:
+        out.append(r)
+        if rng.random() >= p:
+            continue
+        toks = r.split(" ")
+        if toks[0] not in LOCALITY_OPS:
+            continue
+        idx = [i for i, t in enumerate(toks) if _DTOK.match(t)]
+        if not idx:
+            continue
+        k = rng.randrange(6)
+        if k == 0:
+            out.append(r)
+            continue
+        i = rng.choice(idx)
+        m = _DTOK.match(toks[i])
+        c, s = int(m.group(1)), int(m.group(2))
+        if k == 1:
+            s2 = s + rng.choice((1, -1))
+            c2 = c
+        elif k == 2:
+            c2, s2 = c + rng.choice((1, -1, 3)) * (1 << rng.choice((64, 64, 32, 96))), s
+        elif k == 3:
+            c2, s2 = -c, s
+        elif k == 4:
+            c2, s2 = c * 10, s + 1
+        else:
+            c2, s2 = c + rng.choice((1, -1)), s
+        if not (0 <= s2 <= 18 and abs(c2) <= M):
+            continue
+        v = list(toks)
+        v[i] = "D%d:%d" % (c2, s2)
+        out.append(" ".join(v))
+        out.append(r)
+    return out
+
+
 def _worker(args):
     modname, tier, seed, shard, nshards, bins, deadline, max_batches = args
     import importlib
@@ -224,6 +276,8 @@ def _worker(args):
             if not reqs:
                 break
             reqs = list(reqs)
+            if getattr(prop, "LOCALITY", True):
+                reqs = add_locality(reqs, rng)
             if getattr(prop, "MODE_INDEPENDENT", False):
                 # the result must not depend on the thread's rounding mode: run one half of the batch under
                 # RoundHalfEven and the other half under another mode (rotating over shards and batches)
